@@ -28,7 +28,7 @@ def gen_case(r):
     polset = r.choice(["simple", "four", "one"])
     adds, nons = NG.POLSETS[polset]
     T = r.randint(4, 7)
-    c = {"polset": polset, "T": T,
+    c = {"polset": polset, "T": T, "sender": "Sewer",
          "cap": F(r.choice([8, 20, 60])), "pipe_time": r.choice([0, 0, 1, 2]), "ta": r.choice(TAS),
          "ov": None,
          "arc": r.choice(["Arc", "QueueArc", "QueueArc", "DecayArc", "AltQueueArc"]), "nt": r.choice([0, 1, 1, 2]),
@@ -59,6 +59,19 @@ def gen_case(r):
             pushes.append((r.choice(["default", "Sewer", "Land", "Demand", "Land"]), v))
         steps.append(pushes)
     c["steps"] = steps
+    # every third case: a time-area groundwater store as the sender (QueueGroundwater.distribute; all pushes take the
+    # time-area diagram; sometimes with decays) - a choice that leaves the draws above as they are
+    rs = random.Random(r.getrandbits(32))
+    if rs.random() < 0.34:
+        c["sender"] = "QueueGroundwater"
+        c["cap"] = F(rs.choice([60, 200, 1000]))
+        c["decays"] = rs.random() < 0.4
+        if c["ov"]:
+            c["ov"].pop("pipe_time", None)
+            if "pipe_timearea" in c["ov"]:
+                c["ov"]["timearea"] = c["ov"].pop("pipe_timearea")
+            c["ov"] = c["ov"] or None
+        c["steps"] = [[("default", v) for tag, v in pushes] for pushes in steps]
     return c
 
 
@@ -72,11 +85,22 @@ def build(c):
     dates = list(range(c["T"]))
     temp = {("temperature", t): Ex(10 + t) for t in dates}
     src = Node(name="src")
-    sw = Sewer(name="sewer", capacity=Ex(c["cap"]), pipe_time=c["pipe_time"], pipe_timearea={k: Ex(v) for k, v in c["ta"].items()},
-               data_input_dict=dict(temp))
+    if c.get("sender", "Sewer") == "Sewer":
+        sw = Sewer(name="sewer", capacity=Ex(c["cap"]), pipe_time=c["pipe_time"], pipe_timearea={k: Ex(v) for k, v in c["ta"].items()},
+                   data_input_dict=dict(temp))
+    else:
+        from wsimod.nodes.storage import QueueGroundwater
+        kw = dict(name="sewer", capacity=Ex(c["cap"]), area=Ex(10), timearea={k: Ex(v) for k, v in c["ta"].items()}, data_input_dict=dict(temp))
+        if c.get("decays"):
+            adds_, _ = NG.POLSETS[c["polset"]]
+            kw["decays"] = {adds_[0]: {"constant": Ex(F(1, 10)), "exponent": Ex(F(101, 100))}}
+        sw = QueueGroundwater(**kw)
     if c["ov"]:
         ov = dict(c["ov"])
-        if "pipe_timearea" in ov:
+        for key in ("pipe_timearea", "timearea"):
+            if key in ov:
+                ov[key] = {k: Ex(v) for k, v in ov[key].items()}
+        if False:
             ov["pipe_timearea"] = {k: Ex(v) for k, v in ov["pipe_timearea"].items()}
         if "capacity" in ov:
             ov["capacity"] = Ex(ov["capacity"])
@@ -124,15 +148,17 @@ def run_case(c):
             nodes, arcs, sw, rc, feed, main = build(c)
             names = MN._names()
             eff_pt = (c["ov"] or {}).get("pipe_time", c["pipe_time"])
-            eff_ta = (c["ov"] or {}).get("pipe_timearea", c["ta"])
+            eff_ta = (c["ov"] or {}).get("pipe_timearea", (c["ov"] or {}).get("timearea", c["ta"]))
+            qgw = c.get("sender", "Sewer") != "Sewer"
+            tank = sw.tank if qgw else sw.sewer_tank
             schedule = {}          # close-out index after which water is available -> volume
             left = F(0)            # everything that has left the sewer (volume)
-            arrived_init = frac(sw.sewer_tank.active_storage["volume"])
+            arrived_init = frac(tank.active_storage["volume"])
             for t in range(c["T"]):
                 for n in nodes:
                     n.t = t
-                st0 = {n.name: MN.node_stock(n, names) if MN.tanks_of(n) else None for n in (sw, rc)}
-                decl0 = MN.cvec(sw.sewer_tank.storage, names)
+                st0 = {n.name: (MN.node_stock(n, names), MN.node_decayed(n, names)) if MN.tanks_of(n) else None for n in (sw, rc)}
+                decl0 = MN.cvec(tank.storage, names)
                 tr0 = {a.name: MN.arc_transit(a, names) for a in arcs}
                 dec0 = {a.name: MN.cvec(a.total_decayed, names) for a in arcs if hasattr(a, "total_decayed")}
                 for tag, v in c["steps"][t]:
@@ -140,18 +166,18 @@ def run_case(c):
                     reply = feed.send_push_request(offer, tag=tag)
                     took = frac(v["volume"]) - frac(reply["volume"])
                     if took > 0:
-                        if tag in ("Land", "Demand"):
+                        if qgw or tag in ("Land", "Demand"):
                             for d, f in eff_ta.items():
                                 schedule[t + d] = schedule.get(t + d, F(0)) + took * f
                         else:
                             schedule[t + eff_pt] = schedule.get(t + eff_pt, F(0)) + took
                 # C09: what has arrived so far (available now + everything that has left) is what was due by now
                 due = arrived_init + sum(v for k, v in schedule.items() if k <= t)
-                avail = frac(sw.sewer_tank.active_storage["volume"])
+                avail = frac(tank.active_storage["volume"])
                 if abs((avail + left) - due) > DUST:
                     bad.append(("C09", f"timestep {t}: {avail} available in the sewer + {left} already gone, but {due} was due to have arrived by now "
                                        f"(pipe_time {eff_pt}, pipe_timearea {dict(eff_ta)}{', set through apply_overrides' if c['ov'] else ''})"))
-                sw.make_discharge()
+                sw.distribute() if qgw else sw.make_discharge()
                 # C04 / C02 before close-out
                 for n in (sw, rc):
                     if st0[n.name] is None or type(n).__name__ in ("WWTW", "River"):
@@ -162,10 +188,10 @@ def run_case(c):
                         ins = MN.vadd(ins, MN.cvec(a.vqip_out, names))
                     for a in n.out_arcs.values():
                         outs = MN.vadd(outs, MN.cvec(a.vqip_in, names))
-                    d_st = MN.vsub(MN.node_stock(n, names), st0[n.name])
+                    d_st = MN.vadd(MN.vsub(MN.node_stock(n, names), st0[n.name][0]), MN.vsub(MN.node_decayed(n, names), st0[n.name][1]))
                     if not all(abs(x - y) <= DUST for x, y in zip(MN.vsub(ins, outs), d_st)):
                         bad.append(("C04", f"timestep {t}: the arcs of {n.name} ({type(n).__name__}) record {MN.fmt(ins)} carried in and {MN.fmt(outs)} "
-                                           f"carried out over a {c['arc']}, its tank changed by {MN.fmt(d_st)}"))
+                                           f"carried out over a {c['arc']}, its tank changed by {MN.fmt(d_st)} (decay included)"))
                 for a in arcs:
                     vi, vo = MN.cvec(a.vqip_in, names), MN.cvec(a.vqip_out, names)
                     dtr = MN.vsub(MN.arc_transit(a, names), tr0[a.name])
@@ -188,7 +214,7 @@ def run_case(c):
 def run(rep, thorough, pid):
     r = C.rng("duo")          # the same cases for every property that runs this monitor
     n = 1500 if thorough else 220
-    stats = {"cases": 0, "timesteps": 0, "violations": 0, "too_slow": 0, "arc_classes": {}, "receivers": {}, "with_overrides": 0}
+    stats = {"cases": 0, "timesteps": 0, "violations": 0, "too_slow": 0, "arc_classes": {}, "receivers": {}, "senders": {}, "with_overrides": 0}
     for i in range(n):
         c = gen_case(random.Random(r.getrandbits(48)))
         try:
@@ -208,6 +234,7 @@ def run(rep, thorough, pid):
         stats["arc_classes"][c["arc"]] = stats["arc_classes"].get(c["arc"], 0) + 1
         stats["receivers"][c["recv"]] = stats["receivers"].get(c["recv"], 0) + 1
         stats["with_overrides"] += int(bool(c["ov"]))
+        stats["senders"][c.get("sender", "Sewer")] = stats["senders"].get(c.get("sender", "Sewer"), 0) + 1
         rep.add_eval(("duo", i), nontrivial=steps >= 3)
         mine = [m for p, m in bad if p == pid]
         if mine:
